@@ -857,6 +857,13 @@ func (r *c32Run) deliverProof(h int64, sb *c32Sub, feeCollector string, validSee
 		}
 		if expectValid && weightOne {
 			dbgDump(r, node)
+			fmt.Printf("DBG res=%+v\n", res)
+			for a, coins := range r.n.Accounts() {
+				if !coins.IsEqual(accBefore[a]) {
+					fmt.Printf("DBG acc %s %s -> %s\n", a, accBefore[a], coins)
+				}
+			}
+			fmt.Printf("DBG supply before=%s after=%s\n", before, r.supply())
 			c.Violation("C32/proof/valid-proof-not-rewarded", "%s: the required leaf of a live, mature, unexpired claim was not rewarded (%s)", sb.desc, res.Log)
 		}
 		if expectValid && !weightOne {
